@@ -86,7 +86,13 @@ pub fn worker(ctx: &mut Ctx) {
     let corpus = load_corpus();
     install_sink();
     let probe = LintGroup::new_curated(dict.clone(), Dialect::American);
-    let keys: Vec<String> = probe.iter_keys().map(|s| s.to_string()).collect();
+    // a name may be registered both as a whole-document rule and as a pattern rule (`Intact`): one switch
+    let keys: Vec<String> = {
+        let mut k: Vec<String> = probe.iter_keys().map(|s| s.to_string()).collect();
+        k.sort();
+        k.dedup();
+        k
+    };
     let curated: BTreeMap<String, bool> = keys.iter().map(|k| (k.clone(), probe.config.is_rule_enabled(k))).collect();
     drop(probe);
 
@@ -274,8 +280,16 @@ pub fn worker(ctx: &mut Ctx) {
             if g != e {
                 let extra: Vec<&String> = g.iter().filter(|x| !e.contains(x)).collect();
                 let missing: Vec<&String> = e.iter().filter(|x| !g.contains(x)).collect();
-                let sig = if !extra.is_empty() { "combination.extra" } else { "combination.missing" };
-                ctx.report.finding("C11", sig, wit_text.len(), cfg_desc, || format!("lints(cfg) != sum of single-rule lints; extra {:?}; missing {:?}", extra.iter().take(3).collect::<Vec<_>>(), missing.iter().take(3).collect::<Vec<_>>()));
+                let mut counts: BTreeMap<&String, (i32, i32)> = BTreeMap::new();
+                for x in &g {
+                    counts.entry(x).or_insert((0, 0)).0 += 1;
+                }
+                for x in &e {
+                    counts.entry(x).or_insert((0, 0)).1 += 1;
+                }
+                let multi: Vec<String> = counts.iter().filter(|(_, (a, b))| a != b).take(3).map(|(k, (a, b))| format!("{k} x{a} in lints(cfg), x{b} in the sum of singles")).collect();
+                let sig = if !extra.is_empty() { "combination.extra" } else if !missing.is_empty() { "combination.missing" } else { "combination.multiplicity" };
+                ctx.report.finding("C11", sig, wit_text.len(), cfg_desc, || format!("lints(cfg) != sum of single-rule lints; extra {:?}; missing {:?}; multiplicities {:?}", extra.iter().take(3).collect::<Vec<_>>(), missing.iter().take(3).collect::<Vec<_>>(), multi));
             }
             // random 2-partition of the enabled set
             if ci % 4 == 0 && enabled.len() >= 2 {
